@@ -1,7 +1,7 @@
 """Mechanical extraction of real functions from /repo/src into a Verus-checkable file.
 
 What is copied: the token range of the function body, byte for byte.
-What is changed: exactly the rewrite rules R1..R7 documented in DESIGN.md §3.1.
+What is changed: exactly the rewrite rules R1..R11 (plus block units) documented in DESIGN.md §A.1.
 Anything unexpected raises Undecided (driver exit code 2), never a violation.
 """
 import os
@@ -1083,6 +1083,9 @@ def emit_unit(em, repo, u, type_table, log, assumed=False):
                     em.add("        " + ln.strip() + ("" if ln.rstrip().endswith(",") else ","), kind="meta", unit=cn)
         em.add("    ensures false,", kind="canary", unit=cn)
         em.add("{", kind="meta", unit=cn)
+        for s in u["sections"]:
+            if s["label"].startswith("ghost at-start"):
+                em.add("    " + " ".join(x.strip() for x in s["lines"] if x.strip()), kind="meta", unit=cn)
         for s in u["sections"]:
             if s["label"].startswith("proof at-start"):
                 em.add("    proof { " + " ".join(x.strip() for x in s["lines"]) + " }", kind="meta", unit=cn)
